@@ -311,12 +311,13 @@ def expect_scenario(model, sc):
 
     try:
         for i, (f, ln, kind, slots, src) in enumerate(items):
+            # (free texts are trimmed once more after the substitution: cb3d2e8)
             if kind == "title":
-                t = use(i, "t")
+                t = use(i, "t").strip()
                 if t.strip():           # a title / attention text that is empty after substitution is not printed (a71da88^: 3fb4b9d)
                     printed.append(b"title " + t)
             elif kind == "attention":
-                t = use(i, "t")
+                t = use(i, "t").strip()
                 if t.strip():
                     printed.append(b"attention " + t)
             elif kind == "author":
@@ -346,7 +347,7 @@ def expect_scenario(model, sc):
                     if not (mul and rn.endswith(b"s") and rn[:-1] in roles):
                         invalid(i)
                     rn = rn[:-1]
-                env = use(i, "env")
+                env = use(i, "env").strip()
                 star = slots["star"][1]
                 an = slots["an"][1]
                 if mul == b"":
@@ -395,19 +396,19 @@ def expect_scenario(model, sc):
                     invalid(i)
                 head = {"auditwhile": b"audits only while ", "computes": b"computes v as ", "collects": b"collects c as last 3 ",
                         "expects": b"expects always: "}[kind]
-                printed.append(b"  " + slots["an"][1] + b" " + head + e)
+                printed.append(b"  " + slots["an"][1] + b" " + head + e.strip())
             elif kind == "include":
                 fn = use(i, "f")
                 if fn == b"inc1.cfg":
                     q = subst_all(model, [(table[tab_of[i]], b"in-inc1 ~txt~")])[0]
                     if q[1]:
                         raise Fail(("undef", "inc1.cfg", 1, q[1]))
-                    printed.append(b"title " + q[0])
+                    printed.append(b"title " + q[0].strip())
                 elif fn == b"sub/inc2.cfg":
                     q = subst_all(model, [(table[tab_of[i]], b"in-inc2 ~q~")])[0]
                     if q[1]:
                         raise Fail(("undef", "sub/inc2.cfg", 1, q[1]))
-                    printed.append(b"title " + q[0])
+                    printed.append(b"title " + q[0].strip())
                 else:
                     invalid(i)
     except Fail as e:
